@@ -61,6 +61,8 @@ S_CONC = {
     "latin1": ["café", "naïve ñandú ü", "é"],
     "cjk": ["中文", "你好世界", "汉字 abc"],
     "gbk": ["€", "镕 x", "a 漢"],
+    # characters on which Python's gb2312 and gb18030 codecs disagree (same bytes, other character): in gb2312 AND gb18030
+    "gbdiv": ["―・", "x―y", "・・ ―"],
     "astral": ["\U0001f600", "\U0001d4b3 math", "a\U0001f600b"],
     "surrogate": ["abc\udcff", "\udc80", "x\udcfe\udcffy"],
 }
@@ -251,11 +253,12 @@ POOLS = {
     "latin1": "éèüñß£¿Åøÿþï» ",
     "cjk": "中文你好世界汉字",
     "gbk": "€镕漢繁",
+    "gbdiv": "―・·—€",
     "bmp": "ЖΩאกあ☃ ﻿�",
     "astral": "\U0001f600\U0001d4b3\U00010348\U000e0041",
     "surrogate": "\udc80\udcff\udcfe\udca9",
 }
-_ORDER = ["ascii", "latin1", "cjk", "gbk", "bmp", "astral", "surrogate"]
+_ORDER = ["ascii", "latin1", "cjk", "gbk", "gbdiv", "bmp", "astral", "surrogate"]
 
 
 def random_scenario(rng):
